@@ -874,10 +874,10 @@ def differential(ctx: fw.Ctx) -> None:
         return
     D: dict[str, list[fw.Case]] = {'resume_step': [], 'resume_trace': []}
     with Env() as env:
-        D['resume_key'] = run_keys(ctx, env, ctx.scale(60, 1500))
+        D['resume_key'] = run_keys(ctx, env, ctx.scale(60, 600))
         D['resume_detect'] = run_detect_table(ctx, env)
         D['resume_decl'] = run_decl_table(ctx, env)
-        D['resume_select'] = run_select_table(ctx, env, ctx.scale(12, 150))
-        run_histories(ctx, env, ctx.scale(160, 5000), D, load_corpus())
+        D['resume_select'] = run_select_table(ctx, env, ctx.scale(12, 80))
+        run_histories(ctx, env, ctx.scale(160, 1500), D, load_corpus())
     for name in ('resume_key', 'resume_detect', 'resume_decl', 'resume_select', 'resume_step', 'resume_trace'):
         ctx.differential(name, HEADER, D[name], shard=150 if name != 'resume_trace' else 40)
